@@ -16,7 +16,7 @@ add("C09", "model_checking",
 add("C06", "model_checking",
     "The real SetAvailablePower/SetPrevotePowers/SetPrecommitPowers run on real signature proofs for every assignment of signer subsets to the targets nil/A/B (each target absent or signed by any subset, so any validator may sign several targets), with full-width symbolic powers and every map iteration order; "
     "z3/cvc5 show the reported numbers equal the oracle recomputed from the signer sets (available = sum, block = sum of distinct signers, total counts each validator once, most-voted = least target among maximal power) on every path.",
-    "Bounds: 2 validators (quick) / 3 (thorough), 3 targets. Assumes the sum of powers does not overflow 64 bits. Signature verification is stubbed to true (accounting, not authenticity). The kernel/state-machine consequences (H2) are listed in evidence only when their harnesses ran.",
+    "Bounds: H1 2 validators (quick) / 3 (thorough), 3 targets, all map orders. H2 (consequence): through the real kernel entries a coalition of 1-2 of 4 validators with < 1/3 of the (symbolic) power that signs every target cannot make the node leave its round, regard the round as fully voted, or commit. Assumes the sum of powers does not overflow 64 bits. Signature verification is stubbed to true (accounting, not authenticity). The state-machine step function (delay timers) is exercised by C08.",
     "symbolic execution of go/ssa + SMT; structure (signer sets, map order) enumerated, powers symbolic", "§5 C06")
 
 add("C01", "model_checking",
